@@ -163,6 +163,9 @@ func (r *Rec) Case(c interface{}, v Verdict) {
 	r.seenS++
 	if c != nil && (len(r.samples) < 3 || (v.NT && len(r.samples) < 8 && isPow10(r.seenS))) {
 		if b, err := json.Marshal(c); err == nil {
+			if len(b) > 3000 && r.seenS < 200 {
+				return // prefer a smaller case as a sample while the run is young
+			}
 			if len(b) > 3000 {
 				b, _ = json.Marshal(map[string]interface{}{"truncated_json_prefix": string(b[:3000]), "json_len": len(b)})
 			}
